@@ -63,6 +63,7 @@ def escape_position_sweep(points):
 UNQ_TOKENS = ["%41", "%2F", "%2f", "%25", "%2B", "%26", "%3D", "%3B", "%20", "%C3", "%A9", "%c3%a9", "%E2", "%82",
               "%AC", "%F0", "%9F", "%98", "%80", "%ED", "%A0", "%E0", "%C0", "%F4", "%90", "%F5", "%FF",
               "%", "%4", "%zz", "+", "a", "/", "é", " ", "&", "=", ";", "%e2%82%ac", "%\u0430\u0141", "%4\u0466",
+              "%aB", "%Ab", "%cE", "%Fd", "%eF%bB%Bf",   # hex letters of different case inside one escape
               "%2E", "%2e", "r%2Et", ".",   # an escaped dot is not a suffix separator, a real one is
               # boundary sequences of every UTF-8 length class (first/last valid, first invalid)
               "%C2%80", "%DF%BF", "%E0%A0%80", "%ED%9F%BF", "%EE%80%80", "%EF%BF%BF", "%F0%90%80%80", "%F3%BF%BF%BF",
@@ -171,7 +172,8 @@ def delimiter_strings(maxlen, alphabet=None):
 
 
 def soup_urls(rng, n, maxlen=14):
-    pool = DELIM_ALPHABET + ["h", "v", "f", "+", "&", "=", ";", " ", "\t", "é", "%41", "%2F", "::", "//", "http:", "[::1]", "80", "-"]
+    pool = DELIM_ALPHABET + ["h", "v", "f", "+", "&", "=", ";", " ", "\t", "é", "%41", "%2F", "::", "//", "http:", "[::1]", "80", "-",
+                             "%aB", "%cE", "%Fd", "%c3%A9"]
     return ["".join(rng.choice(pool) for _ in range(rng.randint(0, maxlen))) for _ in range(n)]
 
 
